@@ -284,6 +284,8 @@ GRAPHS: List[Tuple[str, int, List[Tuple[int, int]]]] = [
     # ... its edges entered head-to-tail (0->1->2->0): a tie-break by stored direction lets the three vertices support each other
     ("triangle+isolated", 4, [(0, 1), (1, 2), (2, 0)]),
     ("parallel edges+isolated", 3, [(0, 1), (0, 1)]),
+    # the edge-less vertex FIRST in the numbering: a per-vertex loop that stops (return for continue) at it never reaches the cycle
+    ("isolated vertex before a triangle", 4, [(1, 2), (2, 3), (1, 3)]),
     # non-bipartite and dense: a spanning star has two adjacent leaves at the same depth (rank differences along tree edges are not +-1)
     ("K4", 4, [(0, 1), (0, 2), (0, 3), (1, 2), (1, 3), (2, 3)]),
     # edges entered with the larger endpoint first (a guard `if i < j` copied onto the edge list drops them), one of them a bridge
